@@ -125,14 +125,42 @@ def build_unit(chk):
 
 
 def native(chk, unit):
-    """build the extracted C natively and the real C++ harness; returns path of the replay exe"""
+    """build the extracted C natively and the real C++ harness; returns path of the replay exe.
+    unit=None: real code only (used when extraction fails)."""
+    exe = os.path.join(chk.out, "c04_native")
+    if unit is None:
+        hv.build_native(os.path.join(hv.VERIF, "native", "c04_native.cpp"), exe, extra=["-DNO_EXTRACTED"])
+        return exe
     obj = os.path.join(chk.out, "c04_unit.o")
     rc, o, e, _ = hv.run(["gcc", "-O1", "-w", "-std=gnu11", "-c", "-I", os.path.join(hv.VERIF, "spec"), unit, "-o", obj], timeout=120)
     if rc != 0:
         raise hv.Infra("native build of extracted unit failed: " + e[-2000:])
-    exe = os.path.join(chk.out, "c04_native")
     hv.build_native(os.path.join(hv.VERIF, "native", "c04_native.cpp"), exe, extra=[obj])
     return exe
+
+
+def literal_stage(chk, exe):
+    """boundary literals, both spellings, through the real Lexer/Parser/CodeGen (needs no extracted text)"""
+    rc, o, e, secs = hv.run([exe, "literals"], timeout=300)
+    try:
+        r = json.loads(o)
+    except Exception:
+        raise hv.Infra("literal stage failed: " + (o + e)[-600:])
+    r["stage"] = "boundary literals (signed and unsigned spellings, +/-16^k, INT_MAX, INT_MIN, 2^32-1) through the real Lexer/Parser/CodeGen, decoded by the ISA rule"
+    chk.native.append(r)
+    if r.get("bad"):
+        lit, tok = r["first_literal"], r["first_token"]
+        rr = replay(exe, tok, 0, lit)
+        p = chk.replay_path("literal_" + lit)
+        json.dump({"property": PID, "obligation": "native literal stage", "token": tok, "value": None, "literal": lit, "real_code_result": rr,
+                   "how": "./check C04 --replay " + p}, open(p, "w"), indent=1)
+        chk.add_violation("native-literals", p, "%s %s decodes to %s" % (tok, lit, rr.get("decoded")), True)
+
+
+def native_only(chk):
+    """extraction failed: the proof is undecided, but the real code can still be run on the boundary inputs"""
+    exe = native(chk, None)
+    literal_stage(chk, exe)
 
 
 def replay(exe, token, value, literal=None):
@@ -188,6 +216,7 @@ def main(chk, replay_file):
     chk.jobs = jobs
     hv.run_jobs(jobs, chk.out)
     exe = native(chk, unit)
+    literal_stage(chk, exe)
 
     # --- fidelity: extracted C == real C++ on seeded + boundary inputs (assumption reducer)
     n = 20000 if tier == "quick" else 2000000
